@@ -63,8 +63,12 @@ def color_raw(mode, regs):
         return (clamp(hue_raw(regs['hue']), 0, MAX16),
                 clamp(pct_raw(regs['saturation']), 0, MAX16),
                 clamp(pct_raw(regs['brightness']), 0, MAX16), k), ()
-    r, g, b = (clamp(frac(regs[n]) / 100, 0, 1) for n in ('red', 'green', 'blue'))
+    raw_rgb = [frac(regs[n]) / 100 for n in ('red', 'green', 'blue')]
+    r, g, b = (clamp(x, 0, 1) for x in raw_rgb)
     h, s, v = rgb_to_hsv(r, g, b)
+    if any(x < 0 or x > 1 for x in raw_rgb):
+        # a percentage outside 0..100 names no colour: only the protocol range is required
+        return (h * MAX16, s * MAX16, v * MAX16, k), (0, 1, 2)
     free = ()
     if v == 0:
         free = (0, 1)
